@@ -33,10 +33,16 @@ def bez_case(ck, c, M=None, tag='plain'):
     P = c['P']
     z = [complex(p[0], p[1]) for p in P]
     fpt, ftan, fk = (lambda w: w), (lambda w: w), 1.0
+    api = None
     if M is not None:
-        tag, fpt, ftan, fk = M
+        tag, fpt, ftan, fk = M[:4]
+        api = M[4] if len(M) > 4 else None
+    if api is not None:
+        seg = api(make(z))              # through the library's own rotated / scaled / translated (numpy-valued control points)
+        z = list(seg.bpoints())
+    else:
         z = [fpt(w) for w in z]
-    seg = make(z)
+        seg = make(z)
     n = len(P) - 1
     name = type(seg).__name__
     ck.case(fp=('bez', str(P), tag), nontrivial=c['k0'] > 1 or c['k1'] > 1)
@@ -49,6 +55,8 @@ def bez_case(ck, c, M=None, tag='plain'):
         return False
     try:
         for t, key in ((0, 'tan0'), (1, 'tan1')):
+            if tag.startswith('api.scaled') and (c['k0'] if t == 0 else c['k1']) > 1:
+                continue        # scale() goes through the power basis: coincident control points come back an ulp apart, the end derivative is rounding noise
             exp = ftan(unit(c[key]))
             got = seg.unit_tangent(t)
             if abs(abs(got) - 1) > 1e-9 or abs(got - exp) > 1e-6:
@@ -65,17 +73,19 @@ def bez_case(ck, c, M=None, tag='plain'):
                 return bad('unit_tangent(0.5)', 'got %r, derivative direction %r' % (got, exp), exp, got)
             kexp = abs(d1.real * d2.imag - d1.imag * d2.real) / abs(d1) ** 3 * fk
             kgot = seg.curvature(0.5)
-            if abs(kgot - kexp) > 1e-9 * max(1, kexp):
+            if abs(kgot - kexp) > 1e-9 * max(1, kexp, fk):
                 return bad('curvature(0.5)', 'got %r, exact %r' % (kgot, kexp), kexp, kgot)
         # reversal
         rv = seg.reversed()
         for t in (0, 0.5, 1):
             if t == 0.5 and abs(d1) == 0:
                 continue
+            if tag.startswith('api.scaled') and t != 0.5:
+                continue
             a, b = rv.unit_tangent(1 - t), seg.unit_tangent(t)
             if abs(a + b) > 1e-6:
                 return bad('reversed.unit_tangent(%r)' % (1 - t), 'reversed tangent %r is not the opposite of %r' % (a, b), -b, a)
-        if abs(d1) > 0 and abs(rv.curvature(0.5) - seg.curvature(0.5)) > 1e-9 * max(1, seg.curvature(0.5)):
+        if abs(d1) > 0 and abs(rv.curvature(0.5) - seg.curvature(0.5)) > 1e-9 * max(1, seg.curvature(0.5), fk):
             return bad('reversed.curvature(0.5)', 'curvature changes under reversal', seg.curvature(0.5), rv.curvature(0.5))
     except Exception as e:      # noqa
         return bad('raises-' + type(e).__name__, 'raised %r' % e, 'value', repr(e))
@@ -83,12 +93,15 @@ def bez_case(ck, c, M=None, tag='plain'):
 
 
 def similarities():
-    out = [('translated', lambda w: w + (3 - 7j), lambda u: u, 1.0)]
+    out = [('translated', lambda w: w + (3 - 7j), lambda u: u, 1.0),
+           ('api.translated', None, lambda u: u, 1.0, lambda sg: sg.translated(3 - 7j))]
     for deg in (90, 180, 270, 30, -45):
         r = cmath.exp(1j * math.radians(deg))
         out.append(('rotated(%d)' % deg, (lambda w, r=r: r * w), (lambda u, r=r: r * u), 1.0))
-    for s in (2.0, 0.5, -3.0):
+        out.append(('api.rotated(%d)' % deg, None, (lambda u, r=r: r * u), 1.0, (lambda sg, deg=deg: sg.rotated(deg, origin=1 + 2j))))
+    for s in (2.0, 0.5, -3.0, 1e-10, 1e7):
         out.append(('scaled(%g)' % s, (lambda w, s=s: s * w), (lambda u, s=s: u * (1 if s > 0 else -1)), 1 / abs(s)))
+        out.append(('api.scaled(%g)' % s, None, (lambda u, s=s: u * (1 if s > 0 else -1)), 1 / abs(s), (lambda sg, s=s: sg.scaled(s))))
     return out
 
 
@@ -140,7 +153,7 @@ def run(ck):
             continue
         seen.add(str(c['P']))
         bez_case(ck, c)
-        for M in (sims if not quick else rnd.sample(sims, 3)):
+        for M in (sims if not quick else rnd.sample(sims, 6)):
             bez_case(ck, c, M)
     ck.sample('bezier', r.cases[len(r.cases) // 2])
     # lines
